@@ -195,6 +195,27 @@ class Gen:
                 prog.append(('assign', r.choice(gnames), self.expr(gnames, 2)))
         if r.random() < 0.35:
             prog.insert(r.randint(1 + nfun, len(prog)), self.rebinding_loop())
+        if r.random() < 0.15:
+            # a comparison function whose only parameter is "...": each comparison gets the two values as an array of its own, which the function keeps
+            at = r.randint(1 + nfun, len(prog))
+            prog[at:at] = [('assign', 'seen', call('arrayNew')),
+                           ('func', 'cmpRest', ['pair'], True, [('expr', call('arrayPush', ('var', 'seen'), ('var', 'pair'))),
+                                                               ('return', ('bin', '-', call('arrayGet', ('var', 'pair'), num(0)), call('arrayGet', ('var', 'pair'), num(1))))]),
+                           log_stmt(call('stringNew', call('arraySort', call('arrayNew', *[num(x) for x in r.sample([1, 2, 3, 4, 5, 7], r.randint(2, 5))]), ('var', 'cmpRest')))),
+                           log_stmt(call('stringNew', ('var', 'seen')))]
+        if r.random() < 0.15:
+            # partial applications of library functions that take "..." themselves, called without further arguments more than once
+            at = r.randint(1 + nfun, len(prog))
+            kind = r.choice(['push', 'curry'])
+            if kind == 'push':
+                prog[at:at] = [('assign', 'ticks', call('arrayNew')), ('assign', 'tick', call('systemPartial', ('var', 'arrayPush'), ('var', 'ticks'), sq('tick')))] + \
+                    [('expr', call('tick', *([num(9)] if r.random() < 0.2 else []))) for _ in range(r.randint(2, 4))] + [log_stmt(call('stringNew', ('var', 'ticks')))]
+            else:
+                f = r.choice(self.funcs)
+                prog[at:at] = [('assign', 'curried', call('systemPartial', ('var', 'systemPartial'), ('var', f[0]), num(1)))] + \
+                    [log_stmt(call('stringNew', call('arrayNew', call(call_name, num(2))))) for call_name in ['curried'] * 0] + \
+                    [('assign', 'bound%d' % i, call('curried')) for i in range(r.randint(2, 3))] + \
+                    [log_stmt(call('stringNew', call('arrayNew', call('bound0', num(2)), call('bound1', num(3)))))]
         if len(self.funcs) >= 2 and r.random() < 0.3:
             # an argument whose evaluation re-binds the very name being called: the call uses the binding in force when the call happens
             f0, f1 = r.sample([f[0] for f in self.funcs], 2) if len({f[0] for f in self.funcs}) >= 2 else (self.funcs[0][0], self.funcs[0][0])
